@@ -26,6 +26,18 @@
                                                (`clear()` before every use)
     xmlschema/validators/validation.py:133-177 everything else lives in a context created per call
 
+    xmlschema/validators/wildcards.py:533-545 (element wildcard), 709-735 (attribute wildcard):
+                                               `processContents="skip"` returns before any lookup; otherwise
+                                               `maps.loader.load_namespace(ns)` (loaders.py:322-358): True if the
+                                               namespace is loaded, else — if it has a location (`locations` or the
+                                               bundled fallback ones) — the schema is registered and `maps.build()`
+                                               re-creates EVERY component (xsd_globals.py:505-578: caches cleared,
+                                               `schema.clear()`), else False
+    xmlschema/validators/schemas.py:1320-1324, 1364  the root element is looked up in the maps as they are
+
+  The collection of identity fields is no longer gated by `selected_by` (1e49c64): `Mode.ungated` is the code
+  as it is, `Mode.gated` the code before that fix (finding C10-F2), `Mode.old` the pinned code (C10-F1).
+
   The state of a call is a pair: the RESIDUE `Res` (what stays on the schema object) and the
   call-local `Ctx` (`context.identities` with the `enabled` flags), which starts empty at every call.
 
@@ -43,6 +55,8 @@ structure Sch where
   wtab : List ((Con × Decl × TyId) × List Decl)     -- declarations `update_elements(XPathElement(d, T))` selects
   base : List (Con × Decl)                          -- `selected_by` / `identity.elements` after `build()`
   pure : Nat → Nat                                  -- the memoised methods, as one pure function of the key
+  nsBase : List Nat := []                           -- namespaces in `maps.namespaces` after `build()`
+  loadable : List Nat := []                         -- namespaces `loader.get_locations(ns)` has a location for
 
 def Sch.isComplex (sch : Sch) (t : TyId) : Bool := sch.complex.contains t
 
@@ -62,9 +76,13 @@ structure Res where
   sel : List (Con × Decl)                    -- additions to `declaration.selected_by`
   memo : List (Nat × Nat)                    -- lru cache entries / cached properties
   scratch : List Nat                         -- clearable fields of the scratch context, as last left
+  loaded : List Nat := []                    -- namespaces loaded on demand (`maps.namespaces` minus `nsBase`)
+  /-- call-local although it is kept here: the components this call runs on were replaced by a rebuild,
+      what it writes on them is lost (reset at the start of every call) -/
+  stale : Bool := false
   deriving Repr, Inhabited, DecidableEq
 
-def Res.init : Res := ⟨[], [], [], [], []⟩
+def Res.init : Res := ⟨[], [], [], [], [], [], false⟩
 
 /-- `context.identities`: (constraint, `counter.enabled`) in insertion order -/
 abbrev Ctx := List (Con × Bool)
@@ -133,8 +151,14 @@ def xsiWritesOld (sch : Sch) (r : Res) (ctx : Ctx) (d : Decl) (t : TyId) : List 
 /-- which algorithm -/
 inductive Mode where
   | old          -- the pinned code: widening gated by the type alone (finding C10-F1, fixed by 962be1e)
-  | current      -- the code as it is
-  | ungated      -- proposed repair of C10-F2: collection no longer gated by `selected_by`
+  | gated        -- the code before 1e49c64: collection gated by `selected_by` (finding C10-F2)
+  | ungated      -- THE CODE AS IT IS: collection for every open scope
+  | laxAttrNoLoad  -- variant (seeded change C10-3): a non-strict ATTRIBUTE wildcard does not load a namespace
+  deriving Repr, Inhabited, DecidableEq
+
+/-- processContents -/
+inductive PC where
+  | skip | lax | strict
   deriving Repr, Inhabited, DecidableEq
 
 /-- the part of a call that touches the residue or the counters, in execution order -/
@@ -150,6 +174,11 @@ inductive Step where
   | leave (ids : List (Con × Option Con))
   /-- lazy runs rebuild the counters outside `raw_decode` (schemas.py:1336-1362): the counters as found -/
   | setCtx (ctx : Ctx)
+  /-- a wildcard (`attr`: attribute wildcard, else element wildcard) with processContents `pc` meets a name
+      of namespace `n` -/
+  | wild (attr : Bool) (pc : PC) (n : Nat)
+  /-- a lookup that reads the maps as they are, without loading (root element of the document) -/
+  | nsRead (n : Nat)
   /-- a memoised method called with key `k` -/
   | memoCall (k : Nat)
   /-- `text_decode(text)` without a context: the scratch context is cleared, used, left dirty -/
@@ -162,13 +191,18 @@ inductive Obs where
   | collected (ctx : Ctx) (gate : List Con)
   | memo (v : Nat)
   | scratch (seen : List Nat)
+  /-- a wildcard lookup: is the namespace available (so that the global declaration is consulted), and
+      did THIS call rebuild the components to make it so -/
+  | ns (avail : Bool) (rebuilt : Bool)
+  /-- a lookup without loading: is the namespace in the maps -/
+  | nsSeen (b : Bool)
   deriving Repr, Inhabited, DecidableEq
 
 def isSel (sch : Sch) (r : Res) (c : Con) (d : Decl) : Bool :=
   sch.base.contains (c, d) || r.sel.contains (c, d)
 
 def gate (sch : Sch) (m : Mode) (r : Res) (ctx : Ctx) (d : Decl) : List Con :=
-  (ctx.filter fun p => p.2 && (match m with | .ungated => true | _ => isSel sch r p.1 d)).map (·.1)
+  (ctx.filter fun p => p.2 && (match m with | .ungated => true | .laxAttrNoLoad => true | _ => isSel sch r p.1 d)).map (·.1)
 
 def budgeted (ws : List Write) : Option Nat → List Write
   | none => ws
@@ -180,11 +214,32 @@ def stepWrites (sch : Sch) (m : Mode) (r : Res) (ctx : Ctx) (d : Decl) (t : TyId
   | .old => xsiWritesOld sch r ctx d t
   | _ => xsiWrites sch r ctx d t
 
+def isLoaded (sch : Sch) (r : Res) (n : Nat) : Bool := sch.nsBase.contains n || r.loaded.contains n
+
+/-- loaders.py:350-356 + xsd_globals.py:505-578: the namespace is registered and every component re-created:
+    what was recorded on the old components is gone, the caches are cleared, the rest of the call is stale -/
+def rebuild (r : Res) (n : Nat) : Res :=
+  { xsi := [], elems := [], sel := [], memo := [], scratch := [], loaded := n :: r.loaded, stale := true }
+
+/-- wildcards.py:533-545 / 709-735 -/
+def wildStep (sch : Sch) (m : Mode) (r : Res) (attr : Bool) (pc : PC) (n : Nat) : Res × Option Obs :=
+  match pc with
+  | .skip => (r, none)
+  | _ =>
+    if isLoaded sch r n then (r, some (.ns true false))
+    else if (match m, attr, pc with | .laxAttrNoLoad, true, .lax => true | _, _, _ => false) then
+      (r, some (.ns false false))
+    else if sch.loadable.contains n then (rebuild r n, some (.ns true true))
+    else (r, some (.ns false false))
+
 /-- one step -/
 def step (sch : Sch) (m : Mode) (s : Res × Ctx) : Step → (Res × Ctx) × Option Obs
   | .enter ids => ((s.1, s.2.enter ids), none)
   | .xsiType d t b =>
-    ((applyWrites s.1 (budgeted (stepWrites sch m s.1 s.2 d t) b), s.2), none)
+    if s.1.stale then (s, none)
+    else ((applyWrites s.1 (budgeted (stepWrites sch m s.1 s.2 d t) b), s.2), none)
+  | .wild a pc n => (((wildStep sch m s.1 a pc n).1, s.2), (wildStep sch m s.1 a pc n).2)
+  | .nsRead n => (s, some (.nsSeen (isLoaded sch s.1 n)))
   | .collect d => (s, some (.collected s.2 (gate sch m s.1 s.2 d)))
   | .leave ids => ((s.1, s.2.leave ids), none)
   | .setCtx ctx => ((s.1, ctx), none)
@@ -204,7 +259,7 @@ def run (sch : Sch) (m : Mode) : Res × Ctx → List Step → (Res × Ctx) × Li
 
 /-- a call: the counters start empty (a new context per call); the residue is what the schema holds -/
 def call (sch : Sch) (m : Mode) (r : Res) (doc : List Step) : Res × List Obs :=
-  let (s, os) := run sch m (r, []) doc
+  let (s, os) := run sch m ({ r with stale := false }, []) doc
   (s.1, os)
 
 /-- the residue after a history of calls -/
@@ -229,6 +284,32 @@ def selfSufficient (sch : Sch) : Res × Ctx → List Step → Bool
   | s, x :: xs =>
     (match x with
       | .collect d => s.2.all fun p => !p.2 || !widenableB sch p.1 d || isSel sch s.1 p.1 d
-      | _ => true) && selfSufficient sch (step sch .current s x).1 xs
+      | _ => true) && selfSufficient sch (step sch .gated s x).1 xs
+
+/-- a step that runs to its end and does not look at the namespaces -/
+def stepPlain : Step → Bool
+  | .xsiType _ _ (some _) => false
+  | .wild .. => false
+  | .nsRead _ => false
+  | _ => true
+
+def plainDoc (doc : List Step) : Bool := doc.all stepPlain
+
+def isWild : Step → Bool
+  | .wild .. => true
+  | _ => false
+
+/-- the namespace can neither be loaded on demand nor found loaded by an earlier call: it is in the maps since
+    the schema was built, or nothing can load it -/
+def nsStable (sch : Sch) (n : Nat) : Bool := sch.nsBase.contains n || !sch.loadable.contains n
+
+/-- the documents on which the CODE AS IT IS cannot be influenced by a history: every namespace a non-skip
+    wildcard or the root lookup meets is stable -/
+def stepQuiet (sch : Sch) : Step → Bool
+  | .wild _ pc n => pc == .skip || nsStable sch n
+  | .nsRead n => nsStable sch n
+  | _ => true
+
+def nsQuiet (sch : Sch) (doc : List Step) : Bool := doc.all (stepQuiet sch)
 
 end XsVerif.History
